@@ -16,7 +16,8 @@
    against, and exp = the verdict of the verifier. TLC checks on every case
      Complete:  the honest proof of a true claim is accepted,
      Sound:     an accepted proof proves a true claim,
-     SingleFieldRejected: on lists of distinct items every single-field mutation is rejected,
+     SingleFieldRejected: on lists of distinct items every single-field mutation is rejected
+                (an index / total mutation only when it changes the path shape, see below),
    and prints every case; the driver rebuilds the case on the real code (same list, same
    mutation) and compares its accept / reject with exp.
 
@@ -31,7 +32,7 @@
 EXTENDS Integers, Sequences, FiniteSets, TLC, Json
 
 CONSTANTS Part,     \* "simple" | "tree"
-          NI,       \* items are 1..NI; NI + 1 is an item that occurs in no list
+          NI,       \* items of the lists with repetitions are 1..NI
           MaxRep,   \* lists with repeated items up to this length
           MaxN,     \* lists of distinct items <<1..n>> up to this length
           NKeys     \* tree part: keys 1..NKeys
@@ -89,7 +90,7 @@ SeqsOf(S, n) == IF n = 0 THEN {<<>>} ELSE {Append(s, x) : s \in SeqsOf(S, n - 1)
 Ident(n) == [j \in 1..n |-> j]
 Lists == (UNION {SeqsOf(1..NI, n) : n \in 1..MaxRep}) \cup {Ident(n) : n \in 1..MaxN}
 Distinct(s) == \A a, b \in 1..Len(s) : a # b => s[a] # s[b]
-Other == NI + 1
+Other == 99                                \* an item that occurs in no list
 SwapAt(s, a, b) == [j \in 1..Len(s) |-> IF j = a THEN s[b] ELSE IF j = b THEN s[a] ELSE s[j]]
 DropAt(s, a) == SubSeq(s, 1, a - 1) \o SubSeq(s, a + 1, Len(s))
 DupAt(s, a) == SubSeq(s, 1, a) \o SubSeq(s, a, Len(s))
@@ -99,13 +100,13 @@ Params(items, i) ==
   LET n == Len(items)
       na == Len(Aunts(items, i)) IN
      {<<"none", 0, 0>>}
-     \cup {<<"item", a, 0>> : a \in 1..(NI + 1)}
-     \cup {<<"leaf", a, 0>> : a \in 1..(NI + 1)}
+     \cup {<<"item", a, 0>> : a \in (1..NI) \cup {Other}}
+     \cup {<<"leaf", a, 0>> : a \in (1..NI) \cup {Other}}
      \cup {<<"index", a, 0>> : a \in (0 - 1)..(n + 1)}
      \cup {<<"total", a, 0>> : a \in (0 - 1)..(n + 3)}
      \cup {<<"indextotal", a, b>> : a \in 0..(n + 1), b \in 1..(n + 2)}
      \cup {<<"auntswap", a, b>> : a \in 1..na, b \in 1..na}
-     \cup {<<"auntset", a, b>> : a \in 1..na, b \in 1..(NI + 1)}
+     \cup {<<"auntset", a, b>> : a \in 1..na, b \in (1..NI) \cup {Other}}
      \cup {<<"auntdrop", a, 0>> : a \in 1..na}
      \cup {<<"auntdup", a, 0>> : a \in 1..na}
      \cup {<<"rootother", a, 0>> : a \in 1..n}
@@ -262,7 +263,8 @@ Complete == c.cls = "none" => ExpOf(c)
 Sound == ExpOf(c) => (IF Part = "simple" THEN ClaimTrue(c) ELSE (c.cls # "skip" /\ TreeClaimTrue(c)))
 SingleFieldRejected ==
   IF Part = "simple"
-  THEN (c.cls \in SingleField /\ Distinct(c.items) /\ Mutated(c)) => ~ExpOf(c)
+  THEN (c.cls \in SingleField /\ Distinct(c.items) /\ Mutated(c)
+          /\ (c.cls \in {"index", "total"} => Shape(ProofOf(c).index, ProofOf(c).total) # Shape(c.i, Len(c.items)))) => ~ExpOf(c)
   ELSE (c.cls # "none" /\ ~(c.kind = "nonmember" /\ c.cls = "key")) => ~ExpOf(c)
 \* a non-membership proof verifies for the keys of its gap only
 GapOnly == (Part = "tree" /\ c.kind = "nonmember" /\ c.cls = "key")
